@@ -1,15 +1,15 @@
 (* C11 - the network-level statement as an executable check over what a COMPLETE multi-hop run of the real code was
    observed to do (op rt_net: one event, the real relay code at every node, deliveries in the harness' schedule until
-   nothing is in flight): number of deliveries and the endpoints that processed, in order.  Claimed only for the
-   configuration classes of the unbounded theorems (rt_net_pre_b); RtNetObsProofs.v proves that the check accepts every
+   nothing is in flight): number of deliveries and the endpoints that processed, in order.  Claimed for the
+   configuration class of the unbounded theorems (rt_net_pre_b: every well-formed zone forest, every target); RtNetObsProofs.v proves that the check accepts every
    run of the model's network relation. *)
 From Coq Require Import List Arith Bool PeanoNat.
 From Icv Require Import Route.RtModel Route.RtProofs Route.RtObs Route.RtNet Route.RtChain Route.RtChainComplete
      Route.RtTree Route.RtTreeComplete.
 Import ListNotations.
 
-Definition rt_net_pre_b (c : rt_cfg) (target : nat) : bool :=
-  (rt_chain_wf_b c && (target <? length c)) || (rt_tree_wf_b c && rt_global c target).
+(* any acyclic zone forest with isolated global zones, <= 2 endpoints per zone, every endpoint in one zone; any target *)
+Definition rt_net_pre_b (c : rt_cfg) (target : nat) : bool := rt_tree_wf_b c && (target <? length c).
 
 (* result: 0 = ok, 1 = an endpoint processed twice, 2 = too many deliveries, 3 = incomplete under the premise *)
 Definition rt_net_oracle (c : rt_cfg) (links : list (nat * nat)) (target s : nat) (deliv : nat) (proc : list nat) : nat :=
